@@ -175,6 +175,9 @@ def get_compact_representation(
             if np.isnan(_par_err) or _par_err == 0.0:  # check if parameter is fixed
                 _row.append(_par_val)
                 _row.append("fixed")
+            elif np.isinf(_par_err):  # no number of significant digits to round to
+                _row.append(_par_val)
+                _row.append(_par_err)
             else:  # parameter is not fixed, round and add errors
                 _sig_fig_err = max(2, -int(np.log10(np.abs(_par_err))) + 1)
                 _sig_fig_val = _sig_fig_err if _par_val == 0 else max(_sig_fig_err, -int(np.log10(np.abs(_par_val))) + 2)
@@ -184,6 +187,8 @@ def get_compact_representation(
                 for _err in asymmetric_parameter_errors[_i]:  # iterate over up and down error
                     if np.isnan(_err) or _err == 0.0:  # parameter is fixed, no error available
                         _row.append("N/A")
+                    elif np.isinf(_err):  # the cost function never rises by one on this side
+                        _row.append(_err)
                     else:
                         _sig_err = max(2, -int(np.log10(np.abs(_err))) + 1)
                         _row.append(round(_err, _sig_err))
